@@ -24,7 +24,7 @@ RULE = ("generated library + 2 clients (import styles: import / import as / from
         "style, argument shapes at the sites, options, outcome)")
 ASSUMPTIONS = ["inlined variables are assigned once from pure expressions; argument expressions are pure",
                "functions with *args/**kw, recursion or several returns are expected to be refused"]
-BUDGET = {"quick": (1000, 200), "thorough": (120000, 480)}
+BUDGET = {"quick": (1000, 240), "thorough": (14500, 900)}
 EXHAUSTIVE = {}
 CASE_TIMEOUT = 300
 REQUIRE = {"performed_and_run": 300, "refused": 10}
